@@ -1160,6 +1160,12 @@ pub fn make(profile: &str, seed: u64, index: u64) -> (Params, Extras) {
                         s.fwd.read = ReadMode::Slow { every: 1, us: r.range(rtt / 2, 3 * rtt) };
                     }
                 }
+                // the *_BLOCKED frames that announce it are lost a few times, so that some of
+                // them are still owed (in flight, lost or due again) when the reset comes
+                if r.chance(3, 4) {
+                    use crate::world::{tag, Targeted};
+                    p.targeted.push(Targeted { from: None, tags: tag::BLOCKED, skip: r.range(0, 2) as u32, drop: r.range(1, 6) as u32 });
+                }
             }
             p
         }
